@@ -1,5 +1,5 @@
 import Rfsm.Audit
-import Rfsm.Proofs.CodecNoPanic
+import Rfsm.Proofs.CodecFsm
 import Rfsm.Proofs.CodecSink
 /-!
 # C18 — Partial or failed `.rfsm` I/O is reported, never silently accepted
@@ -15,8 +15,13 @@ Three clauses:
   receives the complete image;
 * failing write: if some call of the sink fails, `has_error()` is true afterwards.
 
-The third holds for every call sequence and every sink (theorem `C18_write_fail`).  The first two are
-false on the unchanged code (counterexample theorems); what does hold is proved as `…_partial`.
+State after the repairs of round 2 (`FsmReader::read` consults `has_error()` before it converts the
+binding ordinal and before it returns `Ok`; `write_str` uses `write_all`): the second and third clause
+are proved in full (`C18_short`, `C18_write_fail`).  Of the first, "never `Ok`" and "the error flag is
+set" are proved for every model and every cut (`C18_read_never_ok`, `C18_read_partial`); that the one
+panic site left in the reader (`read_executable_content`, "Unknown Executable Content") is not reached on
+a prefix is proved for the cuts inside the header and checked on concrete images only — see
+`C18_read_partial`.
 -/
 namespace Rfsm.Codec
 
@@ -34,17 +39,17 @@ def ReadResult.isOk : ReadResult → Bool
   | _ => false
 
 /-- the sink reported a failure at some point of the run -/
-def sawFailure (o : SinkOutcome) : Bool := o.state.sawErr
+def sawFailure (w : WState) : Bool := w.sawErr
 /-- `has_error()` after the run -/
-def hasError (o : SinkOutcome) : Bool := !o.state.ok
+def hasError (w : WState) : Bool := !w.ok
 
 def C18_read_full : Prop :=
   ∀ f : Fsm, wfFsm typeLim f = true → ∀ k, k < (imageOf f).length →
     (readImage ((imageOf f).take k)).isErr = true
 
 def C18_short_full : Prop :=
-  ∀ (f : Fsm) (k : Sink), wfFsm typeLim f = true → anyPanics (opsFsm f) = false → AcceptsUpTo k 1 →
-    (writeFsmTo k f).state.out = imageOf f
+  ∀ (f : Fsm) (k : Sink), wfFsm typeLim f = true → AcceptsUpTo k 1 →
+    (writeFsmTo k f).out = imageOf f
 
 def C18_fail_full : Prop :=
   ∀ (ops : List Op) (k : Sink), sawFailure (runOps k ops WState.init) = true →
@@ -73,56 +78,71 @@ theorem C18_write_fail_fsm (f : Fsm) (k : Sink) (h : sawFailure (writeFsmTo k f)
 
 /-! ## reading a truncated image -/
 
-/-- **What holds.** After reading any strict prefix of the image of any model within the limits, the
-protocol reader's sticky error flag is set: the information "this image is incomplete" is always
-there when `FsmReader::read` is about to return.  (Proof: the reader decodes the full image exactly —
-C05 — and no reader program that ends without error can have seen the end of its input —
-`Prog.mono`.)  Missing for `C18_read_full`: `FsmReader::read` does not consult the flag, and
-`BindingType::from_ordinal(0)` panics before the end is reached. -/
-theorem C18_read_partial (f : Fsm) (h : wfFsm small f = true) (k : Nat) (hk : k < (imageOf f).length) :
+/-- `FsmReader::read` returns `Ok` only with the error flag unset (it consults `has_error()` last) -/
+theorem readFsmProg_ok_unflagged (st : RState) :
+    (readFsmProg.run st).1.isOk = true → (readFsmProg.run st).2.ok = true := by
+  simp only [readFsmProg, run_bind, pHasError]
+  split
+  · simp only [run_bind, run_prim, Prim.run]
+    split
+    · simp [ReadResult.isOk]
+    · simp only [run_bind, run_prim, Prim.run]
+      generalize (readFsmRest _ _ _).run _ = R
+      by_cases hk : R.2.ok = true <;> simp [hk, ReadResult.isOk]
+  · simp only [run_bind, run_prim, Prim.run]
+    generalize (pStr.run st).snd = X
+    by_cases hk : X.ok = true <;> simp [hk, ReadResult.isOk]
+#assert_axioms readFsmProg_ok_unflagged
+
+/-- After reading any strict prefix of the image of any model, the protocol reader's sticky error flag
+is set.  (Proof: the reader decodes the full image exactly — C05 — and no reader program that ends
+without error can have seen the end of its input — `Prog.mono`.) -/
+theorem C18_read_flag (f : Fsm) (h : wfFsm typeLim f = true) (k : Nat) (hk : k < (imageOf f).length) :
     (readImageFull ((imageOf f).take k)).2 = true := by
   have := prefix_has_error h k hk
   simp only [readImageFull]
   cases hp : (readFsmProg.run (RState.init ((imageOf f).take k))).2.panic <;> simp [this]
+#assert_axioms C18_read_flag
+
+/-- **No strict prefix of any image is accepted**: `FsmReader::read` never answers `Ok` (the finding
+`C18-P7-prefix-ok` — `Ok` with a model made of defaults — is gone for every model and every cut). -/
+theorem C18_read_never_ok (f : Fsm) (h : wfFsm typeLim f = true) (k : Nat) (hk : k < (imageOf f).length) :
+    (readImage ((imageOf f).take k)).isOk = false := by
+  have hflag := prefix_has_error h k hk
+  cases hr : (readImage ((imageOf f).take k)).isOk with
+  | false => rfl
+  | true =>
+    exfalso
+    simp only [readImage, readImageFull] at hr
+    cases hp : (readFsmProg.run (RState.init ((imageOf f).take k))).2.panic with
+    | some s => rw [hp] at hr; simp [ReadResult.isOk] at hr
+    | none =>
+      rw [hp] at hr
+      have := readFsmProg_ok_unflagged _ hr
+      rw [hflag] at this
+      exact absurd this (by simp)
+#assert_axioms C18_read_never_ok
+
+/-- **What holds of the read clause.** For every model and every cut the answer is an error, or else a
+panic — never `Ok`.  Missing for `C18_read_full`: that the panic cannot happen.  The reader's only
+panic site left is `read_executable_content` on an unknown content type byte (the model's nesting
+fuel is the other `Site`); on a prefix the type bytes read before the cut are those of the full image
+(0…8) and after the cut `read_u8` answers 0 (`If`), so it is not reached — but this needs an induction
+over all reader programs that is not done here.  It is proved for the cuts inside the version string
+(`C18_read_version_cut`), by evaluation for every cut of concrete images (`C18_read_examples`), and the
+harness checks every prefix it generates (no panic is tolerated there). -/
+theorem C18_read_partial (f : Fsm) (h : wfFsm typeLim f = true) (k : Nat) (hk : k < (imageOf f).length) :
+    (readImage ((imageOf f).take k)).isErr = true ∨ (readImage ((imageOf f).take k)).isPanic = true := by
+  have := C18_read_never_ok f h k hk
+  cases hr : readImage ((imageOf f).take k) with
+  | ok g => rw [hr] at this; simp [ReadResult.isOk] at this
+  | errCantRead => exact Or.inl rfl
+  | errVersion v => exact Or.inl rfl
+  | panic s => exact Or.inr rfl
 #assert_axioms C18_read_partial
 
-/-- so an `Ok` result for a strict prefix is never an `Ok` *without* the error flag: the only way the
-unchanged reader accepts a truncated image is by ignoring `has_error()` -/
-theorem C18_read_ok_is_flagged (f : Fsm) (h : wfFsm small f = true) (k : Nat) (hk : k < (imageOf f).length)
-    (g : Fsm) (e : Bool) (hr : readImageFull ((imageOf f).take k) = (ReadResult.ok g, e)) : e = true := by
-  have := C18_read_partial f h k hk
-  rw [hr] at this
-  exact this
-#assert_axioms C18_read_ok_is_flagged
-
-/-- `FsmReader::read` as it would be with the proposed minimal repair
-(notes/codec-proposed-fixes/C18-P7-truncated-image.diff): the flag is consulted before the binding
-ordinal is converted and again before `Ok` is returned -/
-def readImageChecked (bytes : List Nat) : ReadResult :=
-  match readImageFull bytes with
-  | (_, true) => .errCantRead
-  | (r, false) => r
-
-/-- with that check the read clause holds: every strict prefix is an error, the complete image is
-still read back -/
-theorem C18_read_checked (f : Fsm) (h : wfFsm small f = true) :
-    (∀ k, k < (imageOf f).length → (readImageChecked ((imageOf f).take k)).isErr = true) ∧
-    readImageChecked (imageOf f) = ReadResult.ok f := by
-  constructor
-  · intro k hk
-    have := C18_read_partial f h k hk
-    unfold readImageChecked
-    cases hr : readImageFull ((imageOf f).take k) with
-    | mk r e =>
-      rw [hr] at this
-      simp only at this
-      subst this
-      rfl
-  · simp [readImageChecked, readImageFull_image h]
-#assert_axioms C18_read_checked
-
 /-- the complete image, by contrast, is read without the flag -/
-theorem C18_read_complete (f : Fsm) (h : wfFsm small f = true) :
+theorem C18_read_complete (f : Fsm) (h : wfFsm typeLim f = true) :
     readImageFull (imageOf f) = (ReadResult.ok f, false) := readImageFull_image h
 #assert_axioms C18_read_complete
 
@@ -143,65 +163,78 @@ def emptyFsm : Fsm :=
   { name := [], datamodel := [], binding := .early, pseudoRoot := 0, script := 0, states := [],
     transitions := [], content := [] }
 
-example : wfFsm small emptyFsm = true := by decide
+example : wfFsm typeLim emptyFsm = true := by decide
 example : imageOf emptyFsm = [199, 102, 115, 109, 87, 49, 46, 49, 192, 192, 49, 48, 48, 48, 48, 48] := by decide
 
-/-- cut right after the version string: name, datamodel and the binding ordinal are read as defaults
-after the error, and `BindingType::from_ordinal(0)` panics -/
-theorem C18_read_counterexample_panic :
-    (readImage ((imageOf emptyFsm).take 8)).isPanic = true ∧ (readImage ((imageOf emptyFsm).take 10)).isPanic = true := by
-  decide
-#assert_axioms C18_read_counterexample_panic
+/-- a model with one state, one transition and one block of content -/
+def tinyFsm : Fsm :=
+  { name := [77], datamodel := [], binding := .late, pseudoRoot := 1, script := 0,
+    states := [{ id := 1, docId := 1, name := [114], historyType := .none, isParallel := false,
+                 isFinal := false, initial := 0, states := [], onentry := [1], onexit := [],
+                 transitions := [8], invoke := [], history := [], data := [], parent := 0, donedata := none }],
+    transitions := [{ id := 8, docId := 6, source := 1, target := [1], events := [[101]],
+                      ttype := .internal, wildcard := false, cond := .null, content := 1 }],
+    content := [(1, [.raise [101], .log [] (.string [104, 105]), .script [1]])] }
 
-/-- cut after the binding byte: `Ok` with a model whose remaining fields are defaults -/
-theorem C18_read_counterexample_ok :
-    (readImage ((imageOf emptyFsm).take 11)).isOk = true ∧ (readImage ((imageOf emptyFsm).take 15)).isOk = true := by
-  decide
-#assert_axioms C18_read_counterexample_ok
+example : wfFsm typeLim tinyFsm = true := by decide +kernel
 
-theorem C18_read_counterexample : ¬ C18_read_full := by
-  intro h
-  have := h emptyFsm (by decide) 11 (by decide)
-  revert this
-  decide
-#assert_axioms C18_read_counterexample
+/-- regression of `C18-P7-prefix-panic` / `C18-P7-prefix-ok`: every cut of the 16-byte image of the
+empty model (8 and 10 used to panic in `BindingType::from_ordinal(0)`, 11 and 15 used to be `Ok`) and
+every cut of the image of `tinyFsm` is answered with an error -/
+theorem C18_read_examples :
+    (∀ k, k < (imageOf emptyFsm).length → (readImage ((imageOf emptyFsm).take k)).isErr = true) ∧
+    (∀ k, k < (imageOf tinyFsm).length → (readImage ((imageOf tinyFsm).take k)).isErr = true) := by
+  constructor
+  · intro k hk
+    have : ((List.range (imageOf emptyFsm).length).all
+        fun k => (readImage ((imageOf emptyFsm).take k)).isErr) = true := by decide +kernel
+    exact List.all_eq_true.mp this k (List.mem_range.mpr hk)
+  · intro k hk
+    have : ((List.range (imageOf tinyFsm).length).all
+        fun k => (readImage ((imageOf tinyFsm).take k)).isErr) = true := by decide +kernel
+    exact List.all_eq_true.mp this k (List.mem_range.mpr hk)
+#assert_axioms C18_read_examples
 
-/-! ## short writes -/
+/-! ## short writes: holds in full -/
 
-/-- **What holds.** Against a sink that never fails and takes at least one byte per call the writer
-never records an error (so any loss is silent), and every byte that goes through `write_all` — type
-nibbles, numbers, booleans, string headers — arrives.  The image is complete whenever no string payload
-is longer than what the sink takes at once (`m`; `m = 1`: all strings of at most one byte).  Missing
-for `C18_short_full`: `write_str` hands the payload to `Write::write` and ignores the returned count. -/
-theorem C18_short_partial (ops : List Op) (k : Sink) (m : Nat) (hm : 1 ≤ m) (hk : AcceptsUpTo k m)
-    (hp : anyPanics ops = false) :
-    ∃ w, runOps k ops WState.init = .done w ∧ w.ok = true ∧ w.sawErr = false ∧
-      ((∀ op ∈ ops, payloadLen op ≤ m) → w.out = bytesOf ops) := by
-  obtain ⟨w, e, a, c, o⟩ := runOps_ok k m hm hk ops WState.init rfl hp
-  exact ⟨w, e, a, c, fun h => by simpa [WState.init] using o h⟩
-#assert_axioms C18_short_partial
+/-- Against a sink that never fails and takes at least one byte per call, every call sequence delivers
+exactly its bytes and records no error (`write_str` hands the payload to `write_all`, which repeats
+`write` until everything is taken). -/
+theorem C18_short_ops (ops : List Op) (k : Sink) (hk : AcceptsUpTo k 1) :
+    (runOps k ops WState.init).out = bytesOf ops ∧ (runOps k ops WState.init).ok = true ∧
+    (runOps k ops WState.init).sawErr = false := by
+  obtain ⟨a, c, o⟩ := runOps_ok k 1 (Nat.le_refl 1) hk ops WState.init rfl
+  exact ⟨by simpa [WState.init] using o, a, c⟩
+#assert_axioms C18_short_ops
+
+theorem C18_short : C18_short_full := by
+  intro f k _ hk
+  have := (C18_short_ops (opsFsm f ++ [Op.flush]) k hk).1
+  simpa [writeFsmTo, imageOf, Op.bytes] using this
+#assert_axioms C18_short
 
 /-- against the sink of a `Vec<u8>` the bytes are `bytesOf`: the pure image is what the real writer
 produces when nothing goes wrong -/
-theorem C18_ideal_sink (ops : List Op) (hp : anyPanics ops = false) :
-    ∃ w, runOps idealSink ops WState.init = .done w ∧ w.ok = true ∧ w.out = bytesOf ops := by
-  obtain ⟨w, e, a, _, o⟩ := runOps_ok idealSink (((ops.map payloadLen).foldr max 0) + 1) (by omega)
-    (idealSink_accepts _) ops WState.init rfl hp
-  exact ⟨w, e, a, by simpa [WState.init] using o (fun op h => by have := payload_le_max ops op h; omega)⟩
+theorem C18_ideal_sink (ops : List Op) :
+    (runOps idealSink ops WState.init).ok = true ∧ (runOps idealSink ops WState.init).out = bytesOf ops := by
+  obtain ⟨o, a, _⟩ := C18_short_ops ops idealSink (idealSink_accepts 1)
+  exact ⟨a, o⟩
 #assert_axioms C18_ideal_sink
 
-/-- one byte per call: the name "ab" of a model loses its second byte, and no error is recorded -/
+/-- regression of `C18-P8-short-write`: one byte per call; the name "ab" of a model used to lose its
+second byte with no error recorded -/
 def oneByteSink : Sink := ⟨fun _ _ => .acc 1, false⟩
 
 def abFsm : Fsm := { emptyFsm with name := [97, 98] }
 
-theorem C18_short_counterexample :
-    AcceptsUpTo oneByteSink 1 ∧ anyPanics (opsFsm abFsm) = false ∧
-    (writeFsmTo oneByteSink abFsm).state.out ≠ imageOf abFsm ∧ hasError (writeFsmTo oneByteSink abFsm) = false := by
-  refine ⟨⟨rfl, fun _ len => ⟨1, rfl, by omega⟩⟩, by decide, by decide, by decide⟩
-#assert_axioms C18_short_counterexample
+theorem C18_short_regression :
+    AcceptsUpTo oneByteSink 1 ∧
+    (writeFsmTo oneByteSink abFsm).out = imageOf abFsm ∧ hasError (writeFsmTo oneByteSink abFsm) = false := by
+  refine ⟨⟨rfl, fun _ len => ⟨1, rfl, by omega⟩⟩, by decide, by decide⟩
+#assert_axioms C18_short_regression
 
-theorem C18_counterexample : ¬ C18_full := fun h => C18_read_counterexample h.1
-#assert_axioms C18_counterexample
+/-- the two clauses about writing, together -/
+theorem C18_write : C18_short_full ∧ C18_fail_full := ⟨C18_short, C18_write_fail⟩
+#assert_axioms C18_write
 
 end Rfsm.Codec
